@@ -8,483 +8,8 @@
 //!   * compares every exact / prefix query with a flat `BTreeMap` replay of the same inserts and
 //!     deletes (the S-level oracle), including mid-segment reconstruction.
 
-use std::collections::BTreeMap;
-
-use aranya_runtime::{
-    storage::linear::{testing::Manager, verif_api_c12, LinearStorageProvider},
-    Address, CmdId, Command, GraphId, Keys, Location, MaxCut, Perspective, PolicyId, Prior,
-    Priority, Query, QueryMut, Segment, SegmentIndex, Storage, StorageError, StorageProvider,
-};
-use vh::{fnv, hex, unhex, Args, Recorder, Rng};
-
-type SP = LinearStorageProvider<Manager>;
-type St = <SP as StorageProvider>::Storage;
-type Persp = <SP as StorageProvider>::Perspective;
-type FPersp = <St as Storage>::FactPerspective;
-type FIndex = <St as Storage>::FactIndex;
-
-/// flat key: (name bytes, components)
-type FKey = (Vec<u8>, Vec<Vec<u8>>);
-type Flat = BTreeMap<FKey, Vec<u8>>;
-
-struct HCmd {
-    id: CmdId,
-    parent: Prior<Address>,
-    prio: Priority,
-}
-impl Command for HCmd {
-    fn priority(&self) -> Priority {
-        self.prio.clone()
-    }
-    fn id(&self) -> CmdId {
-        self.id
-    }
-    fn parent(&self) -> Prior<Address> {
-        self.parent
-    }
-    fn policy(&self) -> Option<&[u8]> {
-        None
-    }
-    fn bytes(&self) -> &[u8] {
-        b"c12"
-    }
-}
-
-fn cmd_id(n: u64) -> CmdId {
-    let mut b = [0u8; 32];
-    b[..8].copy_from_slice(&n.to_be_bytes());
-    b[31] = 0xC1;
-    CmdId::from_bytes(b)
-}
-
-// ------------------------------------------------------------------ token formats
-
-fn parse_key(s: &str) -> Option<FKey> {
-    let (n, cs) = s.split_once(':')?;
-    if cs.contains(':') {
-        return None;
-    }
-    let name = unhex(n)?;
-    let comps = if cs.is_empty() {
-        vec![]
-    } else {
-        cs.split(',').map(unhex).collect::<Option<Vec<_>>>()?
-    };
-    Some((name, comps))
-}
-fn show_key(k: &FKey) -> String {
-    format!("{}:{}", hex(&k.0), k.1.iter().map(|c| hex(c)).collect::<Vec<_>>().join(","))
-}
-fn show_opt(v: &Option<Vec<u8>>) -> String {
-    match v {
-        None => "none".into(),
-        Some(v) => format!("some:{}", hex(v)),
-    }
-}
-fn show_facts(l: &[(FKey, Vec<u8>)]) -> String {
-    format!("[{}]", l.iter().map(|(k, v)| format!("{}={}", show_key(k), hex(v))).collect::<Vec<_>>().join(";"))
-}
-fn to_keys(k: &FKey) -> Keys {
-    k.1.iter().map(|c| c.clone().into_boxed_slice()).collect()
-}
-fn name_of(k: &FKey) -> String {
-    String::from_utf8(k.0.clone()).expect("names are ASCII")
-}
-fn err_name(e: &StorageError) -> &'static str {
-    match e {
-        StorageError::EmptyPerspective => "err empty",
-        StorageError::CommandOutOfBounds(_) => "err oob",
-        StorageError::Bug(_) => "err toodeep",
-        _ => "err other",
-    }
-}
-
-// ------------------------------------------------------------------ real-side queries
-
-fn real_query<Q: Query>(q: &Q, k: &FKey) -> Result<Option<Vec<u8>>, String> {
-    let keys = to_keys(k);
-    q.query(&name_of(k), &keys).map(|o| o.map(|b| b.to_vec())).map_err(|e| format!("{e}"))
-}
-fn real_prefix<Q: Query>(q: &Q, k: &FKey) -> Result<Vec<(FKey, Vec<u8>)>, String> {
-    let keys = to_keys(k);
-    let it = q.query_prefix(&name_of(k), &keys).map_err(|e| format!("{e}"))?;
-    let mut out = vec![];
-    for f in it {
-        let f = f.map_err(|e| format!("{e}"))?;
-        out.push(((k.0.clone(), f.key.iter().map(|c| c.to_vec()).collect()), f.value.to_vec()));
-    }
-    Ok(out)
-}
-
-// ------------------------------------------------------------------ S-level oracle
-
-fn flat_query(m: &Flat, k: &FKey) -> Option<Vec<u8>> {
-    m.get(k).cloned()
-}
-/// all live facts under the name whose components start with the prefix, ascending
-fn flat_prefix(m: &Flat, p: &FKey) -> Vec<(FKey, Vec<u8>)> {
-    m.iter()
-        .filter(|(k, _)| k.0 == p.0 && k.1.len() >= p.1.len() && k.1[..p.1.len()] == p.1[..])
-        .map(|(k, v)| (k.clone(), v.clone()))
-        .collect()
-}
-
-struct SegInfo {
-    index: SegmentIndex,
-    first: MaxCut,
-    /// flat map after each command (the last one includes writes left pending at write time)
-    snaps: Vec<Flat>,
-}
-
-struct World {
-    provider: SP,
-    graph: Option<GraphId>,
-    segs: Vec<SegInfo>,
-    idxs: Vec<(Option<FIndex>, Flat)>,
-    persp: Option<Persp>,
-    /// oracle for the current perspective: current flat map + snapshot after each command
-    pflat: Flat,
-    psnaps: Vec<Flat>,
-    fp: Option<FPersp>,
-    fflat: Flat,
-    next_id: u64,
-}
-
-impl World {
-    fn new() -> Self {
-        let mut provider = LinearStorageProvider::new(Manager::new());
-        let persp = provider.new_perspective(PolicyId::new(0));
-        World {
-            provider,
-            graph: None,
-            segs: vec![],
-            idxs: vec![],
-            persp: Some(persp),
-            pflat: Flat::new(),
-            psnaps: vec![],
-            fp: None,
-            fflat: Flat::new(),
-            next_id: 0,
-        }
-    }
-    fn storage(&mut self) -> &mut St {
-        let g = self.graph.expect("storage not created yet");
-        self.provider.get_storage(g).expect("get_storage")
-    }
-    fn loc(&self, s: usize, i: u64) -> Location {
-        let sg = &self.segs[s];
-        Location::new(sg.index, sg.first.checked_add(i).unwrap())
-    }
-}
-
-fn dump_index(ix: &FIndex, rec: &mut Recorder) -> String {
-    match verif_api_c12::fact_index_layers(ix) {
-        Err(e) => format!("err {e}"),
-        Ok(layers) => {
-            let n = layers.len();
-            let mut parts = vec![];
-            for (j, (depth, entries)) in layers.iter().enumerate() {
-                // depth bookkeeping: `prior.depth + 1`, or 1 without a prior
-                if *depth as usize != n - j {
-                    rec.oracle_fail(format!("fact index layer {j} of {n} records depth {depth}"));
-                }
-                let mut es: Vec<(FKey, Option<Vec<u8>>)> = entries
-                    .iter()
-                    .map(|(nm, k, v)| {
-                        ((nm.as_bytes().to_vec(), k.iter().map(|c| c.to_vec()).collect()), v.as_ref().map(|b| b.to_vec()))
-                    })
-                    .collect();
-                es.sort();
-                let body = es
-                    .iter()
-                    .map(|(k, v)| format!("{}={}", show_key(k), v.as_ref().map_or("~".to_string(), |v| hex(v))))
-                    .collect::<Vec<_>>()
-                    .join(";");
-                parts.push(format!("d={depth}{{{body}}}"));
-            }
-            parts.join("|")
-        }
-    }
-}
-
-fn check_q(rec: &mut Recorder, what: &str, got: &Result<Option<Vec<u8>>, String>, want: Option<Vec<u8>>) -> String {
-    match got {
-        Err(e) => {
-            rec.oracle_fail(format!("{what}: query failed: {e}"));
-            format!("err {e}")
-        }
-        Ok(g) => {
-            if *g != want {
-                rec.oracle_fail(format!("{what}: returned {} but the flat map holds {}", show_opt(g), show_opt(&want)));
-            }
-            show_opt(g)
-        }
-    }
-}
-fn check_qp(rec: &mut Recorder, what: &str, got: &Result<Vec<(FKey, Vec<u8>)>, String>, want: Vec<(FKey, Vec<u8>)>) -> String {
-    match got {
-        Err(e) => {
-            rec.oracle_fail(format!("{what}: prefix query failed: {e}"));
-            format!("err {e}")
-        }
-        Ok(g) => {
-            if *g != want {
-                rec.oracle_fail(format!("{what}: returned {} but the flat map gives {}", show_facts(g), show_facts(&want)));
-            }
-            show_facts(g)
-        }
-    }
-}
-
-const BAD: &str = "bad-op";
-
-/// Executes one request line on the real storage; returns the canonical answer.
-fn exec(w: &mut World, rec: &mut Recorder, op: &str) -> String {
-    let t: Vec<&str> = op.split(' ').filter(|s| !s.is_empty()).collect();
-    let num = |s: &str| s.parse::<usize>().ok();
-    match t.as_slice() {
-        ["new"] => {
-            *w = World::new();
-            "ok".into()
-        }
-        ["ins", k, v] => {
-            let (Some(p), Some(k), Some(v)) = (w.persp.as_mut(), parse_key(k), unhex(v)) else { return BAD.into() };
-            p.insert(name_of(&k), to_keys(&k), v.clone().into_boxed_slice()).expect("insert");
-            w.pflat.insert(k, v);
-            "ok".into()
-        }
-        ["del", k] => {
-            let (Some(p), Some(k)) = (w.persp.as_mut(), parse_key(k)) else { return BAD.into() };
-            p.delete(name_of(&k), to_keys(&k)).expect("delete");
-            w.pflat.remove(&k);
-            "ok".into()
-        }
-        ["cmd"] => {
-            let Some(p) = w.persp.as_mut() else { return BAD.into() };
-            let parent = p.head_address().expect("head_address");
-            let prio = match parent {
-                Prior::None => Priority::Init,
-                Prior::Single(_) => Priority::Basic(0),
-                Prior::Merge(_, _) => Priority::Merge,
-            };
-            let c = HCmd { id: cmd_id(w.next_id), parent, prio };
-            w.next_id += 1;
-            match p.add_command(&c) {
-                Ok(n) => {
-                    w.psnaps.push(w.pflat.clone());
-                    format!("ok {n}")
-                }
-                Err(e) => format!("err {e}"),
-            }
-        }
-        ["create"] => {
-            let Some(p) = w.persp.take() else { return BAD.into() };
-            match w.provider.new_storage(p) {
-                Ok((g, st)) => {
-                    let head = st.get_heads().expect("heads").iter().next().expect("one head");
-                    let seg = st.get_segment(head.location()).expect("segment");
-                    w.graph = Some(g);
-                    let mut snaps = std::mem::take(&mut w.psnaps);
-                    *snaps.last_mut().unwrap() = w.pflat.clone();
-                    w.segs.push(SegInfo { index: seg.index(), first: seg.shortest_max_cut(), snaps });
-                    format!("ok {}", w.segs.len() - 1)
-                }
-                Err(e) => err_name(&e).into(),
-            }
-        }
-        ["write"] => {
-            let Some(p) = w.persp.take() else { return BAD.into() };
-            if w.graph.is_none() {
-                return BAD.into();
-            }
-            match w.storage().write(p) {
-                Ok(seg) => {
-                    let mut snaps = std::mem::take(&mut w.psnaps);
-                    *snaps.last_mut().unwrap() = w.pflat.clone();
-                    w.segs.push(SegInfo { index: seg.index(), first: seg.shortest_max_cut(), snaps });
-                    format!("ok {}", w.segs.len() - 1)
-                }
-                Err(e) => err_name(&e).into(),
-            }
-        }
-        ["lp", s, i] => {
-            let (Some(s), Some(i)) = (num(s), num(i)) else { return BAD.into() };
-            if s >= w.segs.len() {
-                return BAD.into();
-            }
-            let loc = w.loc(s, i as u64);
-            match w.storage().get_linear_perspective(loc) {
-                Ok(p) => {
-                    w.persp = Some(p);
-                    w.pflat = w.segs[s].snaps[i].clone();
-                    w.psnaps = vec![];
-                    "ok".into()
-                }
-                Err(e) => err_name(&e).into(),
-            }
-        }
-        ["mp", x] => {
-            let Some(x) = num(x) else { return BAD.into() };
-            if x >= w.idxs.len() || w.segs.len() < 2 {
-                return BAD.into();
-            }
-            let braid = w.idxs[x].0.take().expect("replay uses a consumed fact index");
-            // any two segment heads serve as parents; the fact state is the braid index
-            let (l, r) = (w.segs.len() - 1, w.segs.len() - 2);
-            let left = w.loc(l, w.segs[l].snaps.len() as u64 - 1);
-            let right = w.loc(r, w.segs[r].snaps.len() as u64 - 1);
-            let lca = w.loc(0, 0);
-            match w.storage().new_merge_perspective(left, right, lca, PolicyId::new(0), braid) {
-                Ok(p) => {
-                    w.persp = Some(p);
-                    w.pflat = w.idxs[x].1.clone();
-                    w.psnaps = vec![];
-                    "ok".into()
-                }
-                Err(e) => err_name(&e).into(),
-            }
-        }
-        ["fp", s, i] => {
-            let (Some(s), Some(i)) = (num(s), num(i)) else { return BAD.into() };
-            if s >= w.segs.len() {
-                return BAD.into();
-            }
-            if i >= w.segs[s].snaps.len() {
-                // out of range locations are outside get_fact_perspective's contract
-                return "err oob".into();
-            }
-            let loc = w.loc(s, i as u64);
-            match w.storage().get_fact_perspective(loc) {
-                Ok(f) => {
-                    w.fp = Some(f);
-                    w.fflat = w.segs[s].snaps[i].clone();
-                    "ok".into()
-                }
-                Err(e) => err_name(&e).into(),
-            }
-        }
-        ["fins", k, v] => {
-            let (Some(f), Some(k), Some(v)) = (w.fp.as_mut(), parse_key(k), unhex(v)) else { return BAD.into() };
-            f.insert(name_of(&k), to_keys(&k), v.clone().into_boxed_slice()).expect("insert");
-            w.fflat.insert(k, v);
-            "ok".into()
-        }
-        ["fdel", k] => {
-            let (Some(f), Some(k)) = (w.fp.as_mut(), parse_key(k)) else { return BAD.into() };
-            f.delete(name_of(&k), to_keys(&k)).expect("delete");
-            w.fflat.remove(&k);
-            "ok".into()
-        }
-        ["fwrite"] => {
-            let Some(f) = w.fp.take() else { return BAD.into() };
-            match w.storage().write_facts(f) {
-                Ok(ix) => {
-                    let flat = w.fflat.clone();
-                    w.idxs.push((Some(ix), flat));
-                    format!("ok {}", w.idxs.len() - 1)
-                }
-                Err(e) => err_name(&e).into(),
-            }
-        }
-        ["q", k] => {
-            let (Some(p), Some(k)) = (w.persp.as_ref(), parse_key(k)) else { return BAD.into() };
-            let got = real_query(p, &k);
-            check_q(rec, op, &got, flat_query(&w.pflat, &k))
-        }
-        ["qp", k] => {
-            let (Some(p), Some(k)) = (w.persp.as_ref(), parse_key(k)) else { return BAD.into() };
-            let got = real_prefix(p, &k);
-            check_qp(rec, op, &got, flat_prefix(&w.pflat, &k))
-        }
-        ["fq", k] => {
-            let (Some(f), Some(k)) = (w.fp.as_ref(), parse_key(k)) else { return BAD.into() };
-            let got = real_query(f, &k);
-            check_q(rec, op, &got, flat_query(&w.fflat, &k))
-        }
-        ["fqp", k] => {
-            let (Some(f), Some(k)) = (w.fp.as_ref(), parse_key(k)) else { return BAD.into() };
-            let got = real_prefix(f, &k);
-            check_qp(rec, op, &got, flat_prefix(&w.fflat, &k))
-        }
-        ["sq", s, k] => {
-            let (Some(s), Some(k)) = (num(s), parse_key(k)) else { return BAD.into() };
-            if s >= w.segs.len() {
-                return BAD.into();
-            }
-            let loc = w.loc(s, 0);
-            let ix = w.storage().get_segment(loc).expect("segment").facts().expect("facts");
-            let got = real_query(&ix, &k);
-            let want = flat_query(w.segs[s].snaps.last().unwrap(), &k);
-            check_q(rec, op, &got, want)
-        }
-        ["sqp", s, k] => {
-            let (Some(s), Some(k)) = (num(s), parse_key(k)) else { return BAD.into() };
-            if s >= w.segs.len() {
-                return BAD.into();
-            }
-            let loc = w.loc(s, 0);
-            let ix = w.storage().get_segment(loc).expect("segment").facts().expect("facts");
-            let got = real_prefix(&ix, &k);
-            let want = flat_prefix(w.segs[s].snaps.last().unwrap(), &k);
-            check_qp(rec, op, &got, want)
-        }
-        ["iq", x, k] => {
-            let (Some(x), Some(k)) = (num(x), parse_key(k)) else { return BAD.into() };
-            if x >= w.idxs.len() {
-                return BAD.into();
-            }
-            let ix = w.idxs[x].0.as_ref().expect("replay uses a consumed fact index");
-            let got = real_query(ix, &k);
-            check_q(rec, op, &got, flat_query(&w.idxs[x].1, &k))
-        }
-        ["iqp", x, k] => {
-            let (Some(x), Some(k)) = (num(x), parse_key(k)) else { return BAD.into() };
-            if x >= w.idxs.len() {
-                return BAD.into();
-            }
-            let ix = w.idxs[x].0.as_ref().expect("replay uses a consumed fact index");
-            let got = real_prefix(ix, &k);
-            check_qp(rec, op, &got, flat_prefix(&w.idxs[x].1, &k))
-        }
-        ["sdump", s] => {
-            let Some(s) = num(s) else { return BAD.into() };
-            if s >= w.segs.len() {
-                return BAD.into();
-            }
-            let loc = w.loc(s, 0);
-            let ix = w.storage().get_segment(loc).expect("segment").facts().expect("facts");
-            dump_index(&ix, rec)
-        }
-        ["idump", x] => {
-            let Some(x) = num(x) else { return BAD.into() };
-            if x >= w.idxs.len() {
-                return BAD.into();
-            }
-            let ix = w.idxs[x].0.take().expect("replay uses a consumed fact index");
-            let s = dump_index(&ix, rec);
-            w.idxs[x].0 = Some(ix);
-            s
-        }
-        _ => BAD.into(),
-    }
-}
-
-fn run_case(rec: &mut Recorder, ops: &[String]) {
-    let mut w = World::new();
-    for op in ops {
-        let opc = op.clone();
-        let r = vh::catch(std::panic::AssertUnwindSafe(|| exec(&mut w, rec, &opc)));
-        match r {
-            Ok(ans) => rec.line(op.clone(), ans),
-            Err(msg) => {
-                rec.line(op.clone(), format!("panic {msg}"));
-                rec.panics.push(format!("`{op}` panicked: {msg}"));
-                rec.oracle_fail(format!("`{op}` panicked in the real storage: {msg}"));
-                return;
-            }
-        }
-    }
-}
+use vh::factsworld::*;
+use vh::{fnv, hex, Args, Recorder, Rng};
 
 // ------------------------------------------------------------------ generator
 
@@ -508,7 +33,8 @@ impl Gen<'_> {
         self.rng.pick(&COMPS).to_vec()
     }
     fn fresh_key(&mut self) -> FKey {
-        let name = self.rng.pick(&NAMES[..if self.rng.chance(1, 10) { 4 } else { 2 }]).to_vec();
+        let nn = if self.rng.chance(1, 10) { 4 } else { 2 };
+        let name = self.rng.pick(&NAMES[..nn]).to_vec();
         let n = self.rng.below(4) as usize;
         let comps = (0..n).map(|_| self.comp()).collect();
         (name, comps)
@@ -632,7 +158,8 @@ fn gen_case(rng: &mut Rng, thorough: bool) -> Vec<String> {
             let n = g.segs[s];
             let i = if g.rng.chance(if deep { 9 } else { 1 }, if deep { 10 } else { 2 }) { n - 1 } else { g.rng.below(n as u64) as usize };
             if g.rng.chance(1, 50) {
-                g.push(format!("lp {s} {}", n + g.rng.below(3) as usize)); // out of bounds
+                let extra = g.rng.below(3) as usize;
+                g.push(format!("lp {s} {}", n + extra)); // out of bounds
             }
             g.push(format!("lp {s} {i}"));
         }
